@@ -10,6 +10,7 @@ import (
 	"sort"
 	"strings"
 	"sync"
+	"time"
 
 	"github.com/gkampitakis/go-snaps/internal/verifhook/sched"
 	"github.com/gkampitakis/go-snaps/match"
@@ -200,7 +201,12 @@ func c20Gen(c *vfCtx, emit func(c20Case)) {
 			}
 			emit(c20Case{Kind: "conc", Threads: t, Stale: 1, Env: env, Bound: b})
 			if c.thorough() {
-				emit(c20Case{Kind: "conc", Threads: t, Stale: 2, Env: env, Bound: -1})
+				// one preemption more; unbounded only where it is known to finish (two short threads)
+				tb := b + 1
+				if len(t) == 2 && len(t[0])+len(t[1]) == 2 {
+					tb = -1
+				}
+				emit(c20Case{Kind: "conc", Threads: t, Stale: 2, Env: env, Bound: tb})
 			}
 		}
 	}
@@ -419,7 +425,8 @@ func c20Conc(c *vfCtx, cs c20Case) {
 	}
 	c.addSet("nontrivial", vfHashJSON(cs))
 	reported := false
-	st := sched.Explore(cs.Bound, nil, 0, mk, func(x *sched.Exec) bool {
+	stop := func() bool { return !c.deadline.IsZero() && time.Now().After(c.deadline) }
+	st := sched.ExploreUntil(cs.Bound, nil, 0, stop, mk, func(x *sched.Exec) bool {
 		c.count("transitions", int64(len(x.Points)))
 		if p := check(x); p != "" {
 			if !reported {
@@ -434,6 +441,10 @@ func c20Conc(c *vfCtx, cs c20Case) {
 		return true
 	})
 	c.count("schedules", int64(st.Executions))
+	if st.Capped {
+		c.cap("deadline")
+		c.stopped = true
+	}
 	c.addSet("states", vfHash(fmt.Sprint(cs.Threads), fmt.Sprint(st.Executions)))
 }
 
